@@ -180,6 +180,19 @@ CHECKS.update({
                      "deadline.", ref="5/C12", note=E4_NOTE + " " + E1_NOTE),
 })
 
+CHECKS.update({
+    "C14": dict(engine="E4+reference", technique="exhaustive reference search of the "
+                "planners' decision space (plain Python) on every instance of a small "
+                "grammar, compared with the plan the real schedule() returns",
+                text="ILP goodput goal: graphs satisfied by the returned plan = maximum "
+                     "over all feasible plans; TetriSched (Gurobi, CPLEX): returned "
+                     "plan is maximal (no offered task can be added at any slot / "
+                     "worker / strategy). Violations are attributed (running-task "
+                     "overcharge, pairwise overlap sum, sink-only reward) so that each "
+                     "known finding matches only its own cause.",
+                ref="5/C14", note=E4_NOTE),
+})
+
 NOT_YET = {}
 
 
